@@ -55,7 +55,23 @@ SPEC_CLASS = {
 }
 
 
+def _clean():
+    """Start every call from the library's initial global state.  The pinned tree leaks parser state
+    between calls (collected code-span matches, the setext switch, the root node: property C11);
+    without this the verdict of a case would depend on the cases a worker happened to run before."""
+    from mistletoe import block_token, span_token, core_tokens, token
+    if hasattr(core_tokens, '_code_matches'):
+        core_tokens._code_matches = []
+    if hasattr(block_token.Paragraph, 'parse_setext'):
+        block_token.Paragraph.parse_setext = True
+    if hasattr(token, '_root_node'):
+        token._root_node = None
+    block_token.reset_tokens()
+    span_token.reset_tokens()
+
+
 def html_of(text):
+    _clean()
     with HtmlRenderer() as h:
         d = Document(text)
         out = h.render(d)
@@ -63,6 +79,7 @@ def html_of(text):
 
 
 def md_of(text, nw):
+    _clean()
     with MarkdownRenderer(normalize_whitespace=nw) as r:
         return r.render(Document(text))
 
@@ -141,7 +158,7 @@ def classify(x, contract, nw, fails_without_nw, observed=None):
                 j += 1
     if contract == 'c09b' and re.search(r'^[> ]*#{1,6}( +#+)+ *$', x, re.M):
         return 'empty-atx-heading-closing-sequence-lost-on-second-pass'
-    if re.search(r'^[> ]*(?:[-+*]|\d{1,9}[.)]) *\n[> ]* +[^ \n]', x, re.M):
+    if re.search(r'^[> ]*(?:[-+*]|\d{1,9}[.)]) *\n[> ]*[^> \n]', x, re.M):
         return 'blank-first-line-item-joined-to-marker-line'
     for i, l in enumerate(lines[:-1]):
         if i and l.strip() and not l.lstrip().startswith('>') and lines[i - 1].lstrip().startswith('>'):
@@ -229,9 +246,21 @@ def work(job):
     return res
 
 
+def select(failures, n):
+    """the 3 smallest inputs of every (contract, class), then the globally smallest, n in all"""
+    order = lambda f: (len(f['input']['markdown']), f['input']['markdown'], f['key'])  # noqa: E731
+    fl = sorted(failures, key=order)
+    per, first, rest = {}, [], []
+    for f in fl:
+        c = (f['contract'], f['class'])
+        per[c] = per.get(c, 0) + 1
+        (first if per[c] <= 3 else rest).append(f)
+    return sorted((first + rest)[:max(n, len(first))][:n] if len(first) <= n else first[:n], key=order)
+
+
 def run(tier, seed, workers):
     t = Timer()
-    n_free, n_normal = (6000, 3000) if tier == 'quick' else (200000, 80000)
+    n_free, n_normal = (10000, 5000) if tier == 'quick' else (200000, 80000)
     base = seed * 10_000_000
     cases = [('spec', e['example'], e['markdown']) for e in spec_examples()]
     cases += [('gen', 'free', base + i) for i in range(n_free)]
@@ -263,8 +292,8 @@ def run(tier, seed, workers):
         if os.environ.get('VERIF_PROGRESS'):
             sys.stderr.write('b09: %d/%d work items, %.0f s\n' % (min(lo + step, len(chunks)), len(chunks), t.s()))
         if len(failures) > 4 * MAX_FAILURES + 2000:       # bound the memory: keep the smallest
-            failures = {f['key']: f for f in sorted(failures.values(), key=order)[:MAX_FAILURES + 200]}
-    fl = sorted(failures.values(), key=order)
+            failures = {f['key']: f for f in select(failures.values(), MAX_FAILURES + 200)}
+    fl = select(failures.values(), MAX_FAILURES)
     out.update({
         'domain': ('SPEC: the 652 CommonMark 0.30 examples; DOCS: %d mdgen documents in mode free '
                    '(every block/inline construct, canonical and non-canonical spellings, container '
@@ -282,7 +311,7 @@ def run(tier, seed, workers):
         'node_kind_counts': kinds,
         'failures_total': len(seen),
         'class_counts': classes,
-        'failures': fl[:MAX_FAILURES],
+        'failures': fl,
         'elapsed_s': round(t.s(), 1),
     })
     return out
